@@ -22,7 +22,7 @@ THEOREMS = ["C03_zone_getters_valid", "C03_zone_getters_refuse", "C03_getter_dom
             "C03_set_zone_mode_valid", "C03_set_dhw_mode_valid", "C03_set_dhw_mode_countdown_refuted", "C03_set_dhw_mode_temporary_without_until_refuted",
             "C03_set_dhw_mode_idx_refuted", "C03_set_system_mode_valid", "C03_set_system_time_valid", "C03_set_zone_config_valid", "C03_mode_cmds_registered",
             "C03_set_dhw_params_valid", "C03_set_mix_valve_params_valid", "C03_put_temp_valid",
-            "C03_set_tpi_params_valid", "C03_set_tpi_params_unchecked_refuted"]
+            "C03_set_tpi_params_valid", "C03_set_tpi_params_unchecked_refuted", "C03_put_weather_temp_valid"]
 
 CTL = "01:145038"
 
@@ -448,6 +448,7 @@ def param_commands(ctx: Ctx, built: bool, thorough: bool) -> None:
         w = None if t is None else round(t * 100) % 65536
         cases.append(("st", (t,), f"both V_I 0x30C9 shtemp parser_temp_tail (Some (put_temp_payload {oz(w)}))"))
         cases.append(("dt", (t,), f"both V_I 0x1260 shtemp parser_temp_tail (Some (put_temp_payload {oz(w)}))"))
+        cases.append(("wt", (t,), f"both V_I 0x0002 sh0002 parser_0002 (Some (put_weather_payload {oz(w)}))"))
     for dom, cyc, on, off, pbw in itertools.product([0, 0xFC, 1, 0xF9], [1, 3, 12, 13, 0], [1, 5, 30, 31, 0], [0, 5, 15, 16], [None, 150, 300, 149, 301, rng.randrange(151, 300)]):
         cases.append(("tp", (dom, cyc, on, off, pbw), f"both V_W 0x1100 sh1100 parser_1100 (set_tpi_params {dom} {cyc} {on} {off} {oz(pbw)})"))
     tag = {"max_flow_setpoint": 0xC8, "min_flow_setpoint": 0xC9, "valve_run_time": 0xCA, "pump_run_time": 0xCB, "boolean_cc": 0xCC, "unknown_20": 0x20, "unknown_21": 0x21}
@@ -460,6 +461,8 @@ def param_commands(ctx: Ctx, built: bool, thorough: bool) -> None:
                 name, cmd = "set_mix_valve_params", Command.set_mix_valve_params(CTL, a[0], max_flow_setpoint=a[1], min_flow_setpoint=a[2], valve_run_time=a[3], pump_run_time=a[4])
             elif kind == "tp":
                 name, cmd = "set_tpi_params", Command.set_tpi_params(CTL, a[0], cycle_rate=a[1], min_on_time=a[2], min_off_time=a[3], proportional_band_width=None if a[4] is None else a[4] / 100)
+            elif kind == "wt":
+                name, cmd = "put_weather_temp", Command.put_weather_temp("17:123456", a[0])
             elif kind == "st":
                 name, cmd = "put_sensor_temp", Command.put_sensor_temp("34:123456", a[0])
             else:
@@ -487,7 +490,7 @@ def param_commands(ctx: Ctx, built: bool, thorough: bool) -> None:
                 ctx.violation(f"decoded-value-differs:{name}:param-command", f"{name}{a} -> {cmd}: decoded {dec}, asked for {asked}", {"constructor": name, "args": repr(a), "frame": str(cmd)}, "input")
         except Exception:  # noqa: BLE001
             dec = [9]
-            cls = "dhw-idx-let-through" if kind == "dp" and a[0] not in (0, 1) else "out-of-domain" if kind in ("st", "dt") and a[0] is not None and a[0] < -273.15 else "in-domain"
+            cls = "dhw-idx-let-through" if kind == "dp" and a[0] not in (0, 1) else "out-of-domain" if kind in ("st", "dt", "wt") and a[0] is not None and a[0] < -273.15 else "in-domain"
             if kind == "tp":
                 cls = ("in-domain" if a[0] in (0xF9, 0xFA) else "zone-index-as-domain" if a[0] not in (0, 0xFC) else
                        "unchecked-arguments" if not (1 <= a[1] <= 12 and 1 <= a[2] <= 30 and 0 <= a[3] <= 15 and (a[4] is None or 150 <= a[4] <= 300)) else "in-domain:numeric")
@@ -500,6 +503,7 @@ def param_commands(ctx: Ctx, built: bool, thorough: bool) -> None:
         "Definition sh10a0 (r : result dhwp) : list Z := match r with Raise _ => [9] | Ok z => [1] ++ tz (dp_setpoint z) ++ [dp_overrun z] ++ tz (dp_differential z) end.\n"
         "Definition sh1030 (r : result (list (Z * Z))) : list Z := match r with Raise _ => [9] | Ok l => 1 :: flat_map (fun x => [fst x; snd x]) l end.\n"
         "Definition shtemp (r : result tempv) : list Z := match r with Raise _ => [9] | Ok t => 1 :: tz t end.\n"
+        "Definition sh0002 (r : result (tempv * str)) : list Z := match r with Raise _ => [9] | Ok t => 1 :: tz (fst t) end.\n"
         "Definition sh1100 (r : result tpi) : list Z := match r with Raise _ => [9] | Ok z => [1; tp_cycle z; tp_on4 z; tp_off4 z] ++ tz (tp_pbw z) ++ [match tp_domain z with Some _ => 1 | None => 0 end] end.\n"
         "Definition both {R} (verb code : Z) (sh : result R -> list Z) (parse : str -> result R) (o : option str) : list (list Z) := match o with None => [[0]] | Some p => [s2z p; if payload_ok verb code p then sh (parse p) else [9]] end.\n")
     shard = 400
